@@ -55,6 +55,21 @@ def _geom_atoms(geom_desc, empty, pos, bnd):
                 return "1" if r else "0"
         if n[0] == "k" and n[1] in ("true", "false"):
             return "1" if n[1] == "true" else "0"
+        if n[0] == "call":
+            # a predicate helper of the workspace (`has_full_geometry(&wall.geometry)`): its own body under the same valuation
+            from . import cfgq as _cq
+            prog_ = _cq.PROG
+            ids = prog_.callee_index().get(n[1], ()) if prog_ is not None else ()
+            if len(ids) == 1:
+                hf = prog_.fns[next(iter(ids))]
+                if hf.raw.get("ret") == "bool" and hf.body.argc == len(n[2]) and getattr(atom, "_depth", 0) < 3:
+                    atom._depth = getattr(atom, "_depth", 0) + 1
+                    try:
+                        r = TB.eval_return(Scope(prog_, hf, argmap={i + 1: a for i, a in enumerate(n[2])}), atom)
+                    finally:
+                        atom._depth -= 1
+                    if not (isinstance(r, tuple) and r and r[0] == "stuck"):
+                        return atom(r)
         return None
     return atom
 
@@ -283,9 +298,36 @@ def occluder_polygons_nonempty(prog):
     return res
 
 
+def _fed_from_table(prog, sc, fn, operand, table_name, depth=0):
+    """the operand is a constant, is read from the static table, or is (a field of) a parameter of a private function all of whose call sites pass such a value"""
+    raw, rw = sc.eb.operand(operand), sc.operand(operand)
+    if table_name in repr(raw) or table_name in repr(rw) or strip(rw)[0] == "k":
+        return True
+    base = strip(rw)
+    while base[0] in ("proj", "cast") or (base[0] == "call" and short_callee(base[1]) in ("deref", "clone", "copied", "as_ref", "borrow") and base[2]):
+        base = strip(base[1]) if base[0] in ("proj", "cast") else strip(base[2][0])
+    root = prog.root_of(fn)
+    if base[0] != "arg" or depth > 2 or root.id != fn.id or root.raw.get("pub"):
+        return False
+    sites = _call_sites(prog, fn.id)
+    if not sites:
+        return False
+    for (cf, cb, ct) in sites:
+        ok = False
+        for (csc, cpar, cpb) in scopes_with_site(prog, prog.root_of(cf)):
+            if csc.fn.id != cf.id:
+                continue
+            if base[1] - 1 < len(ct["args"]) and _fed_from_table(prog, csc, cf, ct["args"][base[1] - 1], table_name, depth + 1):
+                ok = True
+            break
+        if not ok:
+            return False
+    return True
+
+
 def table_fed_calls(prog, seen, callee_id, table_name):
     """[(ok, loc, caller display, argument descriptors)] for every call of the function `callee_id` in the bodies of `seen`:
-    ok when every argument is a constant or is read from the static table `table_name`"""
+    ok when every argument is a constant or is read from the static table `table_name` (directly, or through the parameters of private helpers)"""
     res = []
     for fid in sorted(seen):
         fn = prog.fns[fid]
@@ -299,7 +341,7 @@ def table_fed_calls(prog, seen, callee_id, table_name):
             for b, t in hit:
                 descs = [origin_desc(strip(sc.operand(a))) for a in t["args"]]
                 # the raw (un-normalised) expression keeps the for-loop's source collection as a node
-                ok = all(table_name in repr(sc.eb.operand(a)) or table_name in repr(sc.operand(a)) or strip(sc.operand(a))[0] == "k" for a in t["args"])
+                ok = all(_fed_from_table(prog, sc, fn, a, table_name) for a in t["args"])
                 res.append((ok, fn.loc(t.get("ln")), prog.display(fn), descs))
             break
     return res
